@@ -259,13 +259,21 @@ func valueOrError(res *xpath.Result) string {
 		return "Run() returned a nil Result"
 	}
 	_ = res.GetDebugOutput()
+	_, _, _, _ = res.IsNumber(), res.GetWarnings(), res.GetNonWarnings(), res.PrintResult()
 	if res.GetError() != nil {
 		// every accessor must return the run error
 		_, e1 := res.GetBoolResult()
 		_, e2 := res.GetNumResult()
 		_, e3 := res.GetLiteralResult()
-		if e1 == nil || e2 == nil || e3 == nil {
-			return fmt.Sprintf("run error %q set but an accessor reports success", res.GetError())
+		_, e4 := res.GetNodeSetResult()
+		for i, e := range []error{e1, e2, e3, e4} {
+			if e == nil {
+				return fmt.Sprintf("run error %q set but accessor %d reports success", res.GetError(), i+1)
+			}
+			// ... and it is the run error that every accessor hands out, not a message of its own
+			if e.Error() != res.GetError().Error() {
+				return fmt.Sprintf("run error %q set but accessor %d reports another error: %q", res.GetError(), i+1, e)
+			}
 		}
 		return ""
 	}
